@@ -25,16 +25,15 @@ fn k_racial_scaling_record() {
     kani::cover!(true, "reachable");
 }
 
-//@unit props=C18 label=S tier=quick fn=cmp::CMP::from_existing bound="buffers of 0..8 bytes (far shorter than the 0x2A800-byte prefix), all contents"
+//@unit props=C18 label=S tier=quick fn=cmp::CMP::from_existing bound="buffers of 0 and 8 bytes (far shorter than the 0x2A800-byte prefix), all contents"
 //@desc a truncated scaling table returns None or an empty table; it never panics
 #[kani::proof]
 #[kani::unwind(4)]
 #[kani::stub(alloc::fmt::format, stub_fmt)]
 fn k_cmp_short_buffer_nopanic() {
     let b: [u8; 8] = kani::any();
-    let n: usize = kani::any();
-    kani::assume(n <= 8);
-    if let Some(c) = CMP::from_existing(&b[..n]) {
+    if CMP::from_existing(&b[..0]).is_some() { assert!(false, "an empty file holds no table"); }
+    if let Some(c) = CMP::from_existing(&b[..]) {
         assert!(c.parameters.is_empty(), "no records in a truncated file");
         core::mem::forget(c);
     }
